@@ -1534,6 +1534,9 @@ impl GrafeoDB {
                 .tx_manager
                 .last_assigned_tx_id()
                 .unwrap_or_else(|| self.tx_manager.begin());
+            // Mark everything logged so far as committed first (as close() does): recovery
+            // drops the records that precede a checkpoint marker without a commit.
+            wal.log(&WalRecord::TxCommit { tx_id })?;
             wal.checkpoint(tx_id, epoch)?;
             wal.sync()?;
         }
